@@ -414,7 +414,7 @@ func TestVerif_C16(t *testing.T) {
 	keyspaces := [][]c16Key{
 		{{0, "pa", "string", 0}, {0, "pb", "list", 50000}, {0, "qc", "hash", 0}},
 		{{0, "pa", "string", 50000}, {0, "pb", "hash", 0}, {1, "pa", "list", 0}, {1, "qd", "string", 70000}},
-		{{0, "pa", "string", 0}, {0, "pb", "string", 50000}, {0, "pc", "list", 0}, {0, "pd", "string", 0}, {2, "pe", "hash", 90000}},
+		{{0, "pa", "string", 0}, {0, "pb", "string", 50000}, {0, "pc", "list", 0}, {0, "pd", "string", 0}, {12, "pe", "hash", 90000}},
 	}
 	var n, idx int64
 	capped := false
